@@ -103,8 +103,30 @@ def sequence_is_or(pi):
     vinit = q.let_init(body, vid) if vid is not None else None
     if vinit is None:
         return False
+    def mapping_payload(arg):
+        aid = q.base_var(arg, body)
+        for pat in q.all_patterns(body):
+            for alt in or_pats(pat):
+                for pp in q._walk_pat(alt):
+                    v = variant_of(pp)
+                    if v and v[1] == "Mapping" and any(b[1] == aid for b in facts.pat_binds(pp)):
+                        return True
+        return False
     # the iterator over the sequence
     its = [s for x in walk(body) if x.get("k") == "Block" for s in x["stmts"] if s["k"] == "Let" and s.get("init") is not None and call_is(peel(s["init"]), "::iter") and q.base_var(peel(s["init"])["args"][0]) == sid]
+    if not its:
+        # single-loop form: `if s.is_empty() { return Err }; let mut v = vec![]; for entry in s { let Mapping(m) = entry else { return Err }; v.push(parse_mapping(m)?) }`
+        loops = [x for x in walk(body) if x.get("k") == "For" and q.loop_over(x)[0] == sid]
+        pms = [x for x in walk(body) if call_is(x, "parser::parse_mapping")]
+        pushes = [x for x in walk(body) if call_is(x, "::push") and q.base_var(x["args"][0]) == vid]
+        init0 = peel(vinit)
+        empty_start = call_is(init0, "::new") or call_is(init0, "::with_capacity") or (init0.get("k") in ("Array",) and not init0.get("fields"))
+        guards = [e_ for e_ in q.context(oks and leaves[[l for l, _ in leaves].index(oks[0])][1] or [], oks[0]) if e_[0] == "if" and not e_[2] and call_is(peel(e_[1]), "::is_empty") and q.base_var(peel(e_[1])["args"][0]) == sid]
+        if len(loops) == 1 and len(pms) == 1 and len(pushes) == 1 and empty_start and guards:
+            l0 = loops[0]
+            val = q.resolve(l0["body"], pushes[0]["args"][1]) if peel(pushes[0]["args"][1]).get("k") == "Var" else pushes[0]["args"][1]
+            return q.contains(l0["body"], pushes[0]) and any(y is pms[0] for y in walk(val)) and q.every_cycle_calls(l0, lambda x: x is pushes[0]) and mapping_payload(pms[0]["args"][0])
+        return False
     if len(its) != 1:
         return False
     itid = strip_ref(its[0]["pat"]).get("id")
@@ -336,14 +358,31 @@ def run(rep):
         rep.check(other == ["_"] and any(x.get("k") == "Return" for x in walk(rows["_"]["body"])), "K-MOD", "K-MOD/others-rejected", km[0]["sp"], "any other key form is an error", str(other))
     okt = False
     tsite = pm.sp
-    for n in walk(pm.body):
+    for n, npath in walk_with_path(pm.body):
         sc, brs = q.branches(n)
-        if sc is None or show(sc) != "misc" or len(brs) != 2:
+        if sc is None or "Option<tokeniser::ModSym>" not in str(sc.get("ty", "")) or len(brs) != 2:
             continue
         (p0, b0), (p1, b1) = brs
-        if p0 is not None and pat_str(p0) == "Option::Some(ModSym::Not)" and p1 is None and b1 is not None:
+        if p0 is not None and pat_str(p0) == "Option::Some(ModSym::Not)" and (p1 is None or variant_of(p1) == ("Option", "None")) and b1 is not None:
             tsite = n["sp"]
-            okt = show(facts.only(b0)) == "<T, A>::push(expressions, Expression::Negate(<T>::new(expression)))" and show(facts.only(b1)) == "<T, A>::push(expressions, expression)"
+            # what reaches the entry vector in each branch: the branch pushes it, or the branch is the pushed value
+            def pushed(b_):
+                b_ = unblock(b_)
+                c_ = b_
+                while c_.get("k") == "Block" and len(c_["stmts"]) + (1 if c_.get("expr") is not None else 0) == 1:
+                    c_ = unblock(c_["stmts"][0]["e"] if c_["stmts"] else c_["expr"])
+                if call_is(c_, "::push"):
+                    return peel(c_["args"][1]), q.base_var(c_["args"][0])
+                par = npath[-1] if npath else {}
+                if call_is(par, "::push") and peel(par["args"][1]) is n:
+                    return peel(b_), q.base_var(par["args"][0])
+                return None, None
+            v0, t0 = pushed(b0)
+            v1, t1 = pushed(b1)
+            if v0 is not None and v1 is not None and t0 == t1 and t0 is not None:
+                inner = peel(v0["fields"][0]["e"]) if v0.get("k") == "Adt" and v0["adt"] == "parser::Expression" and v0["variant"] == "Negate" else {}
+                inner = peel(inner["args"][0]) if inner.get("k") == "Call" and (inner.get("fn") or "").endswith("Box::<T>::new") else {}
+                okt = inner.get("k") == "Var" and v1.get("k") == "Var" and inner["id"] == v1["id"]
     rep.check(okt, "K-MOD", "K-MOD/not-negates-entry", tsite, "not(k): the whole entry is negated; otherwise it is used as is", "")
     # keys with spaces are re-joined
     joins = [x for x in walk(pm.body) if x.get("k") == "Adt" and x["adt"].endswith("tokeniser::Token") and x["variant"] == "Identifier"
@@ -355,7 +394,7 @@ def run(rep):
     for n in walk(pm.body):
         if n.get("k") == "Call" and n.get("args") and show(n["args"][0]) == "expressions" and n.get("fn"):
             uses.append(n["fn"].split("::")[-1])
-    rep.check(set(uses) <= {"push", "is_empty", "len", "into_iter"} and uses.count("push") == 2, "T-CONJ", "T-CONJ/mapping-vector", pm.sp, "the entry vector is only appended to (no reordering, no removal)", str(sorted(set(uses))))
+    rep.check(set(uses) <= {"push", "is_empty", "len", "into_iter"} and uses.count("push") >= 1, "T-CONJ", "T-CONJ/mapping-vector", pm.sp, "the entry vector is only appended to (no reordering, no removal)", str(sorted(set(uses))))
     fl = [n for n in walk(pm.body) if n.get("k") == "For" and show(n["iter"]) == "mapping"]
     okf = len(fl) == 1 and all(any(l is fl[0] for l in p) for n, p in walk_with_path(pm.body) if call_is(n, "::push") and show(n["args"][0]) == "expressions")
     rep.check(okf, "T-CONJ", "T-CONJ/in-order", fl[0]["sp"] if fl else pm.sp, "entries are appended while iterating the mapping in its own order", "")
